@@ -27,8 +27,12 @@ func TestSim(t *testing.T) {
 		return
 	}
 	if exp, _ := strconv.Atoi(os.Getenv("VERIF_THREADS")); exp > 0 && nthreads != exp {
+		// VERIF_REEXEC is always present and always two characters wide: a
+		// re-executed child must start from exactly the same environment
+		// block (number and length of variables) as a first-time child, or
+		// its start-up allocations, and with them its heap layout, differ.
 		if n, _ := strconv.Atoi(os.Getenv("VERIF_REEXEC")); n < 10 {
-			os.Setenv("VERIF_REEXEC", strconv.Itoa(n+1))
+			os.Setenv("VERIF_REEXEC", fmt.Sprintf("%02d", n+1))
 			if exe, err := os.Executable(); err == nil {
 				syscall.Exec(exe, os.Args, os.Environ())
 			}
